@@ -471,6 +471,7 @@ type c03Case struct {
 	maxRound    uint32
 	dead        bool
 	propTbl     map[uint64][]int // height -> proposer index by round (1-based)
+	seen        map[uint64]*types.Commit
 }
 
 func (c *c03Case) hid(h common.Hash) int {
@@ -594,8 +595,13 @@ func (c *c03Case) lastCommitFor(height uint64) *types.Commit {
 		return types.NewCommit(0, 0, types.BlockID{}, nil)
 	}
 	cs := c.nd.cs
-	if cs.LastCommit != nil && cs.LastCommit.HasTwoThirdsMajority() {
+	// the node's LastCommit (with late precommits) when it is for the previous height, else the
+	// commit the node saved with the block (after a commit in round 0 the node's LastCommit is stale)
+	if cs.LastCommit != nil && cs.LastCommit.GetHeight() == height-1 && cs.LastCommit.HasTwoThirdsMajority() && c.r.Chance(1, 2) {
 		return cs.LastCommit.MakeCommit()
+	}
+	if sc, ok := c.seen[height-1]; ok {
+		return sc
 	}
 	return types.NewCommit(0, 0, types.BlockID{}, nil)
 }
@@ -676,7 +682,10 @@ func (c *c03Case) register(blk *types.Block, kind string, partSize uint32, st cs
 	if spec {
 		b.validAt = st.LastBlockHeight + 1
 	}
-	if spec != (kind == "valid" || kind == "own") {
+	if kind == "own" && !spec {
+		c.o.Count("own-proposal-block-invalid") // createProposalBlock from a stale LastCommit (after a round-0 commit)
+	}
+	if kind != "own" && spec != (kind == "valid") {
 		c.o.Fail(c.opNo, "harness-block-kind", fmt.Sprintf("kind=%s spec=%v", kind, spec))
 	}
 	if spec != impl {
@@ -891,6 +900,7 @@ func (c *c03Case) oracles(evs []c03Event, panicked string) {
 				c.o.Fail(c.opNo, "commit-invalid-block", fmt.Sprintf("h=%d r=%d bid=%s", e.height, e.round, c.bidS(e.bid)))
 			}
 			c.o.Mark(fmt.Sprintf("commit r=%d", e.round))
+			c.seen[e.height] = e.seenCommit
 		}
 	}
 	if panicked == "" {
@@ -1006,7 +1016,8 @@ func (c *c03Case) run(input string, f func() string) {
 func (c *c03Case) signVoteAs(idx int, typ kproto.SignedMsgType, h uint64, r uint32, bid types.BlockID, mode int) (*types.Vote, bool) {
 	c.voteClock++
 	v := &types.Vote{ValidatorAddress: c.net.pvs[idx].GetAddress(), ValidatorIndex: uint32(idx), Height: h, Round: r,
-		Timestamp: c03Genesis.Add(time.Duration(c.voteClock) * time.Second), Type: typ, BlockID: bid}
+		// wall clock like the node's own votes (BFT time: a later height's median must be after the last block time)
+		Timestamp: time.Now().Round(0).UTC().Add(time.Duration(c.voteClock) * time.Millisecond), Type: typ, BlockID: bid}
 	ok := true
 	signer := idx
 	switch mode {
@@ -1435,7 +1446,7 @@ func TestVerifC03(t *testing.T) {
 		cfg.IsSkipTimeoutCommit = r.Chance(1, 4)
 		nd := c03NewNode(net, me, cfg)
 		c := &c03Case{o: o, r: r, net: net, nd: nd, hashes: map[common.Hash]int{}, partsH: map[string]int{},
-			byHash: map[common.Hash]*c03Block{}, held: map[common.Hash]bool{}, signedKey: map[string]string{}}
+			seen: map[uint64]*types.Commit{}, byHash: map[common.Hash]*c03Block{}, held: map[common.Hash]bool{}, signedKey: map[string]string{}}
 		ms := "-"
 		if me >= 0 {
 			ms = fmt.Sprint(me)
